@@ -178,6 +178,24 @@ def main(tier, seed):
                     if not PC.same_parse(o, ref_o):
                         ctx.fail(f'{rname} on an open file that is {state} does not give what the string route gives on the text handed over',
                                  {'op': 'handle-state', 'route': rname, 'state': state, 'text': text}, got=PC.brief(o), want=PC.brief(ref_o))
+        # the same path read again after the file has been rewritten: a path route gives what the string route gives on the text
+        # the file holds NOW (all documented ways of supplying the source give the same database - at every call)
+        small = [t for t in texts if len(t.encode('utf8')) < 30000][:10]
+        spath = os.path.join(tmpdir, 'rewritten.dbml')
+        for ti, text in enumerate(small + small[:1]):
+            with open(spath, 'w', encoding='utf8', newline='') as f:
+                f.write(text)
+            ref_plain, _ = outcome(lambda **k: PyDBML(text, **k), allow_properties=False)
+            for rname, thunk in (('PyDBML(Path)', lambda **k: PyDBML(Path(spath))),
+                                 ('PyDBML.parse_file(str path)', lambda **k: PyDBML.parse_file(spath)),
+                                 ('PyDBML.parse_file(Path)', lambda **k: PyDBML.parse_file(Path(spath)))):
+                o, _ = outcome(thunk)
+                ctx.case(core.h(['rewritten-file', ti, rname, text]), ti > 0)
+                ctx.count('rewritten-file:' + rname)
+                if not PC.same_parse(o, ref_plain):
+                    ctx.fail(f'{rname} on a path whose file has been rewritten since an earlier call does not give what the string '
+                             'route gives on the current text', {'op': 'rewritten-file', 'route': rname, 'texts': (small + small[:1])[:ti + 1]},
+                             got=PC.brief(o), want=PC.brief(ref_plain))
         # options: renderer classes have the same effect on every route that accepts them
         sample_text = texts[0]
         for name, mroute, mkind, takes, thunk in routes(tmpdir, sample_text, 'opts'):
@@ -259,4 +277,21 @@ def main(tier, seed):
 def replay(path):
     case = json.load(open(path))
     print(json.dumps(case, indent=1)[:3000])
+    c = case.get('case', {})
+    if c.get('op') == 'rewritten-file':
+        tmpdir = tempfile.mkdtemp(prefix='verif_c12_')
+        try:
+            spath = os.path.join(tmpdir, 'rewritten.dbml')
+            thunk = {'PyDBML(Path)': lambda: PyDBML(Path(spath)), 'PyDBML.parse_file(str path)': lambda: PyDBML.parse_file(spath),
+                     'PyDBML.parse_file(Path)': lambda: PyDBML.parse_file(Path(spath))}[c['route']]
+            o = ref = None
+            for text in c['texts']:
+                with open(spath, 'w', encoding='utf8', newline='') as f:
+                    f.write(text)
+                o, _ = outcome(lambda **k: thunk())
+                ref, _ = outcome(lambda **k: PyDBML(text, **k), allow_properties=False)
+            print('path route now:', PC.brief(o), '\nstring route   :', PC.brief(ref))
+            return 0 if PC.same_parse(o, ref) else 1
+        finally:
+            shutil.rmtree(tmpdir, ignore_errors=True)
     return 0
